@@ -199,8 +199,7 @@ theorem bigAuto_le_bigNorm (be : BE) (n : Nat) : bigAutoTmp be n ≤ bigNormTmp 
   exact this
 
 theorem automorphismAdd_facts (be : BE) (n : Nat) (res a : G) (k : K) (hn : n % 8 = 0)
-    (ha : a.rank = k.rankIn) (hres : res.rank = k.rankOut)
-    (hcov : a.b2k ≠ k.b2k → bigNormTmp be n ≤ max (normTmp n) (tbKsInternal be n (a.conv k.b2k) k)) :
+    (ha : a.rank = k.rankIn) (hres : res.rank = k.rankOut) :
     fits (treeGlweAutomorphismAdd be n res a k) = true ∧ aligned (treeGlweAutomorphismAdd be n res a k) = true ∧
     reqA (treeGlweAutomorphismAdd be n res a k) ≤ tbGlweAutomorphism be n res a k := by
   have hD := dft_mod64 be hn (res.rank + 1) k.size
@@ -217,7 +216,6 @@ theorem automorphismAdd_facts (be : BE) (n : Nat) (res a : G) (k : K) (hn : n % 
   unfold treeGlweAutomorphismAdd tbGlweAutomorphism tbGlweKeyswitch
   by_cases hx : a.b2k ≠ k.b2k
   · obtain ⟨h1, h2, h3⟩ := ksInternal_facts be n (res.rank + 1) (a.conv k.b2k) k hn (by rw [conv_rank]; exact ha) (by rw [hres])
-    have hc := hcov hx
     simp only [if_pos hx]
     refine ⟨by simp [fits, h1, n1, hlf], by simp [aligned, h2, n2, hla, hD, hG], ?_⟩
     simp only [reqA, n3, tbGlweNormalize]
@@ -300,6 +298,92 @@ theorem ok_of_facts {t : AllocTree} {tb : Nat} (h : fits t = true ∧ aligned t 
     (ha : tb ≤ a.available) : (run t a).isOk = true :=
   run_ok_of_aligned t h.1 h.2.1 a (Nat.le_trans h.2.2 ha)
 
+
+/-! ### trace -/
+
+theorem rsh_le_bigNorm (be : BE) (n : Nat) : rshTmp n ≤ bigNormTmp be n := by
+  unfold rshTmp bigNormTmp
+  cases be <;> simp only [BE.big] <;> omega
+
+theorem tbAuto_ge_bigNorm (be : BE) (n : Nat) (res a : G) (k : K) : bigNormTmp be n ≤ tbGlweAutomorphism be n res a k := by
+  unfold tbGlweAutomorphism tbGlweKeyswitch
+  simp only
+  omega
+
+theorem traceLoop_facts (be : BE) (n iters : Nat) (res : G) (k : K) (hn : n % 8 = 0)
+    (hin : res.rank = k.rankIn) (hout : res.rank = k.rankOut) :
+    fits (treeTraceLoop be n iters res k) = true ∧ aligned (treeTraceLoop be n iters res k) = true ∧
+    reqA (treeTraceLoop be n iters res k) ≤ tbGlweAutomorphism be n res res k := by
+  obtain ⟨h1, h2, h3⟩ := automorphismAdd_facts be n res res k hn hin hout
+  have hr := rsh_le_bigNorm be n
+  have hb := tbAuto_ge_bigNorm be n res res k
+  have hbody : reqA (AllocTree.alt (treeGlweRsh n) (treeGlweAutomorphismAdd be n res res k)) ≤ tbGlweAutomorphism be n res res k := by
+    simp only [reqA, treeGlweRsh, treeRsh, reqA_leaf, tbGlweShift, lshTmp, rshTmp] at *
+    omega
+  unfold treeTraceLoop
+  refine ⟨fits_loop _ _ (by simp [fits, treeGlweRsh, treeRsh, h1]), aligned_loop _ _ (by simp [aligned, treeGlweRsh, treeRsh, h2]), ?_⟩
+  exact Nat.le_trans (reqA_loop_le _ _) hbody
+
+theorem conv_b2k (g : G) (b : Nat) : (g.conv b).b2k = b := rfl
+
+/-- `glwe_trace_assign`, same-radix and cross-radix -/
+theorem traceAssign_facts (be : BE) (n iters : Nat) (res : G) (k : K) (hn : n % 8 = 0)
+    (hin : res.rank = k.rankIn) (hout : res.rank = k.rankOut) :
+    fits (treeGlweTraceAssign be n iters res k) = true ∧ aligned (treeGlweTraceAssign be n iters res k) = true ∧
+    reqA (treeGlweTraceAssign be n iters res k) ≤ tbGlweTraceAssign be n res res k := by
+  obtain ⟨n1, n2, n3⟩ := glweNormalize_facts n
+  unfold treeGlweTraceAssign
+  by_cases hx : res.b2k ≠ k.b2k
+  · -- cross radix: one conversion, then the loop on the converted ciphertext
+    obtain ⟨l1, l2, l3⟩ := traceLoop_facts be n iters (res.conv k.b2k) k hn (by rw [conv_rank]; exact hin) (by rw [conv_rank]; exact hout)
+    have hG := gbytes_mod64 hn (res.conv k.b2k)
+    have hbytes : vecBytes n (k.rankOut + 1) (ceilDiv (min res.maxK res.maxK) k.b2k) = (res.conv k.b2k).bytes n := by
+      simp [G.bytes, G.conv, hout]
+    have hrc : ¬ ((res.conv k.b2k).b2k ≠ k.b2k) := by simp [conv_b2k]
+    simp only [if_pos hx]
+    refine ⟨by simp [fits, n1, l1], by simp [aligned, n2, l2, hG], ?_⟩
+    simp only [reqA, n3]
+    -- the arithmetic: unfold the two formulas down to shared atoms
+    have hD : dftBytes be n ((res.conv k.b2k).rank + 1) k.size = dftBytes be n (res.rank + 1) k.size := by rw [conv_rank]
+    have hba := bigAuto_le_bigNorm be n
+    have hOL : oneLimbTmp n ≤ normTmp n := by unfold oneLimbTmp normTmp; omega
+    simp only [tbGlweTraceAssign, tbGlweAutomorphism, tbGlweKeyswitch, if_pos hx, if_neg hrc, hbytes, hD, tbGlweNormalize,
+      Nat.lt_irrefl, if_false] at *
+    generalize tbKsInternal be n (res.conv k.b2k) k = KI at *
+    generalize G.bytes n (res.conv k.b2k) = RC at *
+    generalize dftBytes be n (res.rank + 1) k.size = D at *
+    generalize bigNormTmp be n = BN at *
+    generalize bigAutoTmp be n = BA at *
+    generalize oneLimbTmp n = OL at *
+    generalize normTmp n = NT at *
+    generalize reqA (treeTraceLoop be n iters (res.conv k.b2k) k) = L at *
+    omega
+  · obtain ⟨l1, l2, l3⟩ := traceLoop_facts be n iters res k hn hin hout
+    simp only [if_neg hx]
+    refine ⟨by simp [fits, l1], by simp [aligned, l2], ?_⟩
+    simp only [reqA, tbGlweTraceAssign, if_neg hx, Nat.lt_irrefl, if_false]
+    omega
+
+theorem reqA_ite_norm (c : Prop) [Decidable c] (n : Nat) :
+    reqA (if c then AllocTree.done else treeGlweNormalize n) ≤ normTmp n ∧
+    aligned (if c then AllocTree.done else treeGlweNormalize n) = true ∧
+    fits (if c then AllocTree.done else treeGlweNormalize n) = true := by
+  obtain ⟨n1, n2, n3⟩ := glweNormalize_facts n
+  split <;> simp [reqA, aligned, fits, n1, n2, n3]
+
+/-- `glwe_trace` -/
+theorem trace_facts (be : BE) (n iters : Nat) (res a : G) (k : K) (hn : n % 8 = 0)
+    (hin : res.rank = k.rankIn) (hout : res.rank = k.rankOut) :
+    fits (treeGlweTrace be n iters res a k) = true ∧ aligned (treeGlweTrace be n iters res a k) = true ∧
+    reqA (treeGlweTrace be n iters res a k) ≤ tbGlweTrace be n res a k := by
+  obtain ⟨t1, t2, t3⟩ := traceAssign_facts be n iters (traceTmp res a k) k hn hin hout
+  obtain ⟨a1, a2, a3⟩ := reqA_ite_norm (a.b2k = k.b2k) n
+  obtain ⟨r1, r2, r3⟩ := reqA_ite_norm (res.b2k = k.b2k) n
+  have hG := gbytes_mod64 hn (traceTmp res a k)
+  unfold treeGlweTrace tbGlweTrace
+  refine ⟨by simp [fits, t1, a3, r3], by simp [aligned, t2, a2, r2, hG], ?_⟩
+  simp only [reqA, tbGlweNormalize]
+  omega
 
 /-! ### poulpy-bin-fhe -/
 
